@@ -226,6 +226,77 @@ def quicPayloadOrig (pool stream : List Nat) : Option (List Nat) :=
     if buf.getD 0 0 * 256 + buf.getD 1 0 ≠ n - 2 then none
     else some (buf.drop 2)
 
+/-! ## How the bytes of a DoQ stream arrive: `readAll`
+
+`readQUICMsg` does not receive a byte string but the results of successive
+`stream.Read` calls: some data and possibly an error next to it.  `io.EOF` is the
+client's STREAM FIN — it may come together with the last data (FIN piggybacked on
+the last frame) or in a call of its own; any other error is the read deadline
+(the client never sent FIN), a stream reset, a closed connection.  The reader
+stops at the first error and when the buffer is full. -/
+
+/-- Size of the pooled DoQ read buffer, `quicBytePoolSize = dns.MaxMsgSize + 2`:
+the two length octets and the largest message they can announce fit together. -/
+def quicBufSize : Nat := 65537
+
+/-- The buffer before the fix (`quicBytePoolSize = dns.MaxMsgSize`): no room for the
+length octets next to a message of 65534 or 65535 octets. -/
+def quicBufSizeLegacy : Nat := 65535
+
+inductive ReadErr
+  | eof                      -- STREAM FIN
+  | other                    -- deadline exceeded, stream reset, connection closed …
+deriving DecidableEq, Repr
+
+/-- The result of one `stream.Read` call. -/
+structure QRead where
+  data : List Nat
+  err : Option ReadErr
+deriving DecidableEq, Repr
+
+/-- What `readAll` returns next to the byte count. -/
+inductive ReadAllErr
+  | nil                      -- the stream ended with `io.EOF`
+  | shortBuffer              -- `io.ErrShortBuffer`: the buffer is full and no `io.EOF` was seen
+  | other
+deriving DecidableEq, Repr
+
+/-- `readAll(stream, buf)` with `len(buf) = cap`; `acc` is what has been read so
+far.  A script that runs out of results is a client that sends nothing more: the
+read deadline fires.  A `Read` result larger than the room left is handed over
+only as far as it fits (without its error, which belongs to the end of the data),
+and the next turn of the loop finds the buffer full. -/
+def readAll (cap : Nat) : List QRead → List Nat → List Nat × ReadAllErr
+  | [], acc => if acc.length = cap then (acc, .shortBuffer) else (acc, .other)
+  | r :: rs, acc =>
+    if acc.length = cap then (acc, .shortBuffer)
+    else if cap - acc.length < r.data.length then (acc ++ r.data.take (cap - acc.length), .shortBuffer)
+    else match r.err with
+      | none => readAll cap rs (acc ++ r.data)
+      | some .eof => (acc ++ r.data, .nil)
+      | some .other => (acc ++ r.data, .other)
+
+/-- The bytes a read script delivers before its first error. -/
+def delivered : List QRead → List Nat
+  | [] => []
+  | r :: rs => match r.err with
+    | none => r.data ++ delivered rs
+    | some _ => r.data
+
+/-- `readQUICMsg` on a read script: the error of `readAll` is consulted only when
+fewer than 12 octets arrived (and then the stream is rejected either way); with a
+whole header in the buffer the length prefix alone decides. -/
+def quicRead (cap : Nat) (pool : List Nat) (reads : List QRead) : Option (List Nat) :=
+  quicPayload pool (readAll cap reads []).1
+
+/-- A reader that gives up on every error of `readAll` (not the code): it loses
+complete queries whose stream does not end in a FIN of its own before the buffer
+is full or the deadline fires. -/
+def quicReadStrict (cap : Nat) (pool : List Nat) (reads : List QRead) : Option (List Nat) :=
+  match (readAll cap reads []).2 with
+  | .nil => quicPayload pool (readAll cap reads []).1
+  | _ => none
+
 /-! ## DoH JSON front end (`httpRequestToMsgJSON`) -/
 
 /-- A `type` / `qc` parameter after table lookup (the mnemonic tables are miekg's). -/
@@ -470,12 +541,15 @@ framing drops it first), and one wire message end to end.  `pool` is whatever an
 earlier request left in the pooled DoQ read buffer; `unpack` stands for
 `dns.Msg.Unpack`.  UDP: datagrams shorter than a header are dropped before
 `Unpack` (`readUDPMsg`) and longer ones are cut to the read buffer; DoQ: the
-stream goes through `readQUICMsg`; TCP/DoT frames, DoH bodies and DNSCrypt
-payloads reach `Unpack` as they are. -/
+stream goes through `readQUICMsg` — the read buffer has room for every message a
+length prefix can announce (a longer `b` has no DoQ framing at all and is dropped
+here); for every `b` a prefix can announce this is `quicRead quicBufSize` on any
+read script that delivers the stream (`unpackInput_doq_is_read`); TCP/DoT frames, DoH bodies and DNSCrypt payloads
+reach `Unpack` as they are. -/
 def unpackInput (t : Transport) (pool b : List Nat) : Option (List Nat) :=
   match t with
   | .udp => if b.length < 12 then none else some (b.take udpBufSize)
-  | .doq => quicPayload pool (frameDoQ b)
+  | .doq => if quicBufSize < b.length + 2 then none else quicPayload pool (frameDoQ b)
   | _ => some b
 
 def serveBytes (t : Transport) (pool b : List Nat) (unpack : List Nat → Option Msg)
